@@ -531,6 +531,7 @@ class BasicContiguousVector<cntgs::Options<Option...>, Parameter...>
     void copy_assign(const BasicContiguousVector& other)
     {
         destruct();
+        locator_->resize(0, memory_begin());  // nothing is alive any more, also if an allocation below throws
         locator_->deallocate(max_element_count_, get_allocator());
         memory_ = other.memory_;
         ElementLocatorAndFixedSizes other_locator{other.locator_, other.memory_begin(),     other.max_element_count_,
